@@ -259,6 +259,13 @@ impl C06 {
         self.check_one(&pb, expect, fam, op, "var-op-lit", st);
         let pc = format!("functie f(x) {{ {} {} x }} f({})", a, op, b);
         self.check_one(&pc, expect, fam, op, "lit-op-var", st);
+        // the very same object on both sides (x op x): the answer is that of two equal values — also for NaN
+        if a == b {
+            let pd = format!("stel x = {}; x {} x", a, op);
+            self.check_one(&pd, expect, fam, op, "same-global", st);
+            let pe = format!("functie f(x) {{ stel y = x; [x {} x, y {} x][1] }} f({})", op, op, a);
+            self.check_one(&pe, expect, fam, op, "same-local", st);
+        }
         st.count(&format!("op:{}", op));
     }
 }
